@@ -9,7 +9,7 @@
    coordinate; ties free), every block decomposition [blk] of rayon's scan and
    every order [ord] in which the leaves draw their number from the atomic
    counter (any injection of the leaves into [0, part_count)). *)
-From Coq Require Import Permutation QArith.
+From Coq Require Import Permutation QArith Floats.SpecFloat.
 From Coupe Require Import Lib.Prelude Lib.SFloat Model.MultiJagged Proofs.MultiJaggedProofs Proofs.MultiJaggedExact Proofs.MultiJaggedSim Gen.MjGen.
 Open Scope N_scope.
 
@@ -183,3 +183,24 @@ Example C11_nonvacuous_f64 :
   multi_jagged F64 2 6 (map (fun z => f64_of_Z z) ex_ws) (fun a => isort (key_lt ex_key a)) (fun l => repeat 2%nat (length l))
                root2 N.of_nat 3 2 (repeat 99 6) = Ok [2; 0; 2; 0; 1; 0].
 Proof. vm_compute. reflexivity. Qed.
+
+(* ---- the balance clause is FALSE of the faithful binary64 model for strictly
+   positive weights far below f64::EPSILON (finding 1, class mj-tiny-weights):
+   eight points on a line, weight 2^-57 each, two parts, one iteration — the
+   absolute epsilon of approx::Ulps::default() makes every prefix sum "equal"
+   to the threshold and all eight elements land in one part.  The exact model
+   splits them 4 | 4.  This is why C11_balance_partial cannot be extended to
+   [F64] without a lower bound on the weights. *)
+Definition tiny_key (a x : nat) : Z := if Nat.eqb a 0 then Z.of_nat x else 0%Z.
+Definition tiny_w : spec_float := binary_normalize 53 1024 1 (-57) false.
+Example C11_balance_f64_refuted_tiny :
+  exists p,
+    multi_jagged F64 2 8 (repeat tiny_w 8) (fun a => isort (key_lt tiny_key a)) (fun l => repeat 3%nat (length l))
+                 root2 N.of_nat 2 1 (repeat 99 8) = Ok p
+    /\ ~ balanced (repeat 1%Z 8) p 2 1
+    /\ multi_jagged QA 2 8 (repeat (Qmake 1 (2 ^ 57)) 8) (fun a => isort (key_lt tiny_key a)) (fun l => repeat 3%nat (length l))
+                    root2 N.of_nat 2 1 (repeat 99 8) = Ok [0; 0; 0; 0; 1; 1; 1; 1].
+Proof.
+  exists [0; 0; 0; 0; 0; 0; 0; 0]. split; [vm_compute; reflexivity|]. split; [|vm_compute; reflexivity].
+  intros H. apply C11_check_balance_ok in H. vm_compute in H. discriminate.
+Qed.
